@@ -52,6 +52,16 @@ def handle (line : String) : String :=
         | .error _ => "err"
         | .ok s => if denseToSparse D == s && sparseToDense s == D then "same" else "differ"
       pure s!"{D.svecs.length} {multi} {sp} {vecs}"
+    | "wincert" =>
+      -- wincert cap G : per-lattice certificate of window completeness; `skip n` when the box has more than cap points
+      let (cap, c) ← c.nat?
+      let (G, c) ← readM3Rat c
+      if !c.atEnd then none
+      if !(isSymm G && isPD G) then pure "notpd" else
+      let nbox := (cubeBox G).length
+      let wr := showB (wellReduced G)
+      if nbox > cap then pure s!"skip {nbox} {wr}" else
+      pure s!"{showB (windowCert G window65)} {nbox} {wr}"
     | "svecstol" =>
       -- svecstol tol G T npts pts nto nfrom pto pfrom : per pair `count v...` with the tolerance rule in length
       let (tol, c) ← c.rat?
